@@ -41,6 +41,8 @@ ExecLetCx(id, n, t, cx) == [St("execlet", id) EXCEPT !.n = n, !.n2 = t, !.e = cx
 IncIf(id, t)     == [St("incif", id) EXCEPT !.n2 = t]
 Ret(id, e)       == [St("return", id) EXCEPT !.e = e]
 BCall(n)         == Ex("bcall", n)          \* n("AbC") with n the name of a built-in function
+BPipe(n)         == Ex("bpipe", n)          \* "AbC" | n
+BColon(n)        == Ex("bcolon", n)         \* n: "AbC"
 Api(id, f, n, e) == [St("api", id) EXCEPT !.f = f, !.n = n, !.e = e]
 
 Tm(name, ext, imps, body) == [name |-> name, ext |-> ext, imps |-> imps, body |-> body]
@@ -62,6 +64,9 @@ WrapKinds == {"range", "rangekv", "rangeelse", "if", "ifelse", "iflet", "ifletel
 \* the wrappers that push interpreter state (used for the deepest enumeration)
 CoreKinds == {"range", "rangekv", "iflet", "let", "ycont", "ycontp", "yctx", "ybody", "ybodyp",
               "includectx", "exec", "issetexec", "tryin", "catchbody"}
+
+\* the wrappers that install or consume yielded content
+ContentKinds == {"ycont", "ycontp", "ydef", "yctx", "yctxp", "ybody", "ybodyp"}
 
 \* wrappers without failures of their own (scoping programs)
 ScopeKinds == WrapKinds \ {"catchbody"}
